@@ -1036,6 +1036,8 @@ def _nan_extreme(is_max):
         a = _val(st, args[0])
         if not isinstance(a, Arr) or not _may_be_nan(a):
             return (np_max if is_max else np_min)(interp, st, args, kwargs)
+        if len(args) == 1 and not kwargs and a.ndim == 0:
+            return a.get(())          # 0-d array: its only cell (numpy: NaN with a RuntimeWarning when that cell is NaN)
         if len(args) > 1 or kwargs or a.ndim != 1:
             raise Unsupported("np.nanmax/nanmin of possibly-NaN cells: only 1-d arrays without axis")
         from .interp import PyRaise
